@@ -438,3 +438,9 @@ package encode
 //@   ensures [C17.enc.reset-total C10.reset.fields C07.enc.reset.sel] (and (not e.HighResolutionCoordinates) (not e.highResolutionCoordinates) (= e.err nil.Iface) (= e.lod0 (_ +zero 8 24)) (= e.lod1 (_ +oo 8 24)) (= e.cSel #x00) (= e.nSel #x00) (= e.mode #x01) (= e.drawOp #x00) (= (len e.drawArgs) (int 0)) (= e.metadata.ViewBox viewbox) (= e.metadata.Palette palette))
 //@   ensures [C17.enc.reset.scratch] (= e.scratch ((as const (Array (_ BitVec 64) (_ BitVec 8))) #x00))
 //@   invariant 0 [reset.n] (and (bvsle (int -1) n) (bvsle n (int 63)))
+// the suggested palette is written in a form every explicit entry fits (C01, C09): the three flags are exactly "all entries
+// seen so far have a 1 / 2 / 3 byte form", and each writing loop only meets entries of its form
+//@   let PAL palette
+//@   invariant 1 [reset.forms] (and (bvsle (int -1) rangeindex) (bvsle rangeindex (int 63)) (= enc1 (forall ((j!p (_ BitVec 64))) (=> (and (bvsle (int 0) j!p) (bvsle j!p rangeindex)) (spec.enc1able (select PAL j!p))))) (= enc2 (forall ((j!p (_ BitVec 64))) (=> (and (bvsle (int 0) j!p) (bvsle j!p rangeindex)) (spec.enc2able (select PAL j!p))))) (= enc3 (forall ((j!p (_ BitVec 64))) (=> (and (bvsle (int 0) j!p) (bvsle j!p rangeindex)) (= (color.RGBA.A (select PAL j!p)) #xff)))))
+//@   at call Encode1 assert [C01.reset.palette.form1 C09.reset.palette.form1] (spec.enc1able (ivg.Color.data arg0))
+//@   at call Encode2 assert [C01.reset.palette.form2 C09.reset.palette.form2] (spec.enc2able (ivg.Color.data arg0))
